@@ -433,6 +433,67 @@ fn c13_chain(depth: usize, max_len: u32) {
 
 // ------------------------------------------------------------------ C15
 
+/// Two subscriptions of clones of one finalize pipeline, each over an input of its own: each of them runs the
+/// callback once, at its own first terminal / unsubscribe, whatever the other one did before.
+pub(crate) fn c15_clones(threads_form: bool) {
+  let counts = [fresh_probe(), fresh_probe()]; // one event per finalizer run, per subscription
+  let order = e::choose(2) as usize; // which subscription is ended first
+  let how = [e::choose(3), e::choose(3)]; // 0 complete, 1 error, 2 unsubscribe
+  thread_local! {
+    static WHICH: std::cell::Cell<usize> = std::cell::Cell::new(0);
+  }
+  e::note(format!("finalize{} cloned, two subscriptions ; s{} ends first by {} ; then s{} by {}", if threads_form { "_threads" } else { "" }, order, ["complete", "error", "unsubscribe"][how[0] as usize], 1 - order, ["complete", "error", "unsubscribe"][how[1] as usize]));
+  // one operator value; the finalizer reports through whichever subscription index is current when it runs
+  let fin = move || {
+    let i = WHICH.with(|w| w.get());
+    let mut p = counts[i];
+    Observer::<Val, Val>::next(&mut p, Val::c(1));
+  };
+  let (pa, pb) = (fresh_probe(), fresh_probe());
+  let mut unsubs: Vec<Option<Box<dyn FnOnce()>>> = vec![None, None];
+  if threads_form {
+    let o = observable::defer(|| cat::hot_tagged_t(0)).finalize_threads(fin);
+    let ua = o.clone().actual_subscribe(pa);
+    let ub = o.clone().actual_subscribe(pb);
+    unsubs[0] = Some(Box::new(move || ua.unsubscribe()));
+    unsubs[1] = Some(Box::new(move || ub.unsubscribe()));
+  } else {
+    let o = observable::defer(|| cat::hot_tagged(0)).finalize(fin);
+    let ua = o.clone().actual_subscribe(pa);
+    let ub = o.clone().actual_subscribe(pb);
+    unsubs[0] = Some(Box::new(move || ua.unsubscribe()));
+    unsubs[1] = Some(Box::new(move || ub.unsubscribe()));
+  }
+  for (step, i) in [order, 1 - order].iter().enumerate() {
+    WHICH.with(|w| w.set(*i));
+    match how[step] {
+      0 | 1 => {
+        let ev = if how[step] == 0 { Ev::Complete } else { Ev::Err(Val::var()) };
+        if threads_form {
+          if let Some(h) = cat::handle_t_nth(0, *i) {
+            let mut h = h;
+            feed_t(&mut h, &ev);
+          }
+        } else if let Some(h) = cat::handle_nth(0, *i) {
+          let mut h = h;
+          feed(&mut h, &ev);
+        }
+      }
+      _ => {
+        if let Some(u) = unsubs[*i].take() {
+          u()
+        }
+      }
+    }
+    let runs = [counts[0].len(), counts[1].len()];
+    let want = if step == 0 { if *i == 0 { [1, 0] } else { [0, 1] } } else { [1, 1] };
+    if runs != want {
+      e::fail("finalize/clones/run-count", || format!("after ending subscription s{} the finalizer runs per subscription are {:?}, expected {:?}", i, runs, want));
+    }
+  }
+  e::cover("c15-clones-path-complete");
+}
+
 pub(crate) fn c15_finalize(k: usize, threads_form: bool) {
   // hot handle -> (optional operator) -> finalize -> probe; any item prefix, then any
   // order of complete / error / unsubscribe, each possibly repeated through clones
@@ -817,6 +878,7 @@ pub fn harnesses() -> Vec<HarnessDef> {
   add("c01_chain_d2", vec!["C01"], "two catalogue stages, arbitrary events on every hot input",
     |t| format!("depth 2; {} arbitrary events; {}", if t { 4 } else { 3 }, if t { "exhaustive" } else { "seeded frontier sample" }),
     Box::new(|t| hot_chain(Mode::Grammar, 2, if t { 4 } else { 3 }, true)), 400_000, 40_000_000, true);
+  add("c15_clones", vec!["C15", "C13"], "finalize / finalize_threads cloned and subscribed twice over inputs of their own: each subscription runs the callback once, at its own end", |_| "2 subscriptions; each ended by complete / error / unsubscribe, in either order; both forms".to_string(), Box::new(|_| { c15_clones(e::choose_bool()) }), 10_000, 10_000, false);
   add("c02_chain", vec!["C02"], "non-scheduler chains: unsubscribe() / guard drop at every position of an arbitrary event script; any later delivery is a violation; source-side handles must report closed",
     |t| format!("depth {}; {} events; cut at every position; unsubscribe() and SubscriptionGuard drop", if t { 2 } else { 1 }, if t { 4 } else { 4 }),
     Box::new(|t| hot_chain(Mode::Unsub, if t { 2 } else { 1 }, 4, true)), 600_000, 40_000_000, true);
